@@ -397,7 +397,9 @@ def check_unsafe(run, S, inv):
     run.floor('inventory_impls', len(inv['impls']), 1500)
     unsafe_impls = [i for i in inv['impls'] if i['safety'] != 'Safe']
     bad = [i for i in unsafe_impls if not i['trait'].startswith('bytemuck')]
-    run.ob('%s:unsafe:impls' % PROP, not bad, rule='K10 unsafe census', expected='unsafe impls only of the bytemuck marker traits', found=[i['trait'] for i in bad][:5])
+    # (evidence only: an `unsafe impl` of a private marker trait - `SameLayout` for the reference views, say - is a way of writing the
+    # same views; whether they expose the right components is decided on their values)
+    run.notes['unsafe_impls_other_than_bytemuck'] = [i['trait'] for i in bad][:20]
     unsafe_fns = [f['path'] for f in inv['fns'] if f['unsafe']]
     # an unsafe fn is covered by the same argument as an unsafe block: its body must have been inlined into (and so interpreted
     # as part of) at least one analysable root - whatever it is called and wherever it lives
